@@ -43,19 +43,31 @@ def reset (s : St) : St :=
   let s := if !s.undoing then setLH s k { h with pos := 0 } else setLH s k h
   { s with undoing := false }
 
-/-- `Save`, last stage, for a given (already clamped) position `p`: truncate the redo branch
-(`items[:len-p]`, a Go reslice) and append the buffer -/
-def saveAppendAt (s : St) (k : Int) (h : LH) (p : Int) : G St :=
-  if (h.items.length : Int) - p < 0 then .error (.oob "undo truncate")
-  else if (h.items.length : Int) - p > h.items.length then .error (.beyond "undo truncate")
+/-- `Save`, last stage, for a given (already clamped) position `p` and number `u` of undone items to
+drop: truncate the redo branch (`items[:len-u]`, a Go reslice) and append the buffer -/
+def saveAppendAt (s : St) (k : Int) (h : LH) (p u : Int) : G St :=
+  if (h.items.length : Int) - u < 0 then .error (.oob "undo truncate")
+  else if (h.items.length : Int) - u > h.items.length then .error (.beyond "undo truncate")
   else
     match checkCommand s.line (curSet s.line ⟨0, -1⟩ (checkAppend s.line s.cur).pos) with
     | .error e => .error e
     | .ok cur1 =>
-      .ok (reset (setLH s k { pos := p, items := h.items.take ((h.items.length : Int) - p).toNat ++ [⟨s.line, (checkAppend s.line cur1).pos⟩] }))
+      .ok (reset (setLH s k { pos := p, items := h.items.take ((h.items.length : Int) - u).toNat ++ [⟨s.line, (checkAppend s.line cur1).pos⟩] }))
+
+/-- how many items `Save` drops: those newer than the state being shown, and that state too unless
+the line has been changed from it (`items[len-pos]`, indexed only when `pos > 0`) -/
+def undoneCount (s : St) (h : LH) (p : Int) : G Int :=
+  if p > 0 then
+    match h.items[((h.items.length : Int) - p).toNat]? with
+    | none => .error (.oob "undo shown item")
+    | some it => .ok (if (h.items.length : Int) - p < 0 then p else if it.line ≠ s.line then p - 1 else p)
+  else .ok p
 
 def saveAppend (s : St) (k : Int) (h : LH) : G St :=
-  saveAppendAt s k h (if h.pos > (h.items.length : Int) then (h.items.length : Int) else h.pos)
+  let p := if h.pos > (h.items.length : Int) then (h.items.length : Int) else h.pos
+  match undoneCount s h p with
+  | .error e => .error e
+  | .ok u => saveAppendAt s k h p u
 
 /-- `Sources.Save` (stage-wise: skip / same text → cursor update / truncate and append) -/
 def save (s : St) : G St :=
